@@ -85,7 +85,7 @@ def timer_oracle(ctx, stream, case_lines, rep):
                 "on the client's own delayed queue a zero-delay rotation task ran before its certificate was stored and was a "
                 "no-op: the certificate is never renewed (" + impl + ")",
                 {"stream": stream, "ops": case_lines, "observed": impl, "correspondence": rep})
-    if impl.startswith("lost=") and impl != "lost=0 burst:lost-delayed=0,lost=0,early=0":
+    if impl.startswith("lost=") and impl != "lost=0 burst:lost-delayed=0,lost=0,early=0 pairs:lost=0 far-near:misordered=0,lost=0 retry:bad=0":
         return ("timer:queue-task-stranded",
                 "the real delayed queue (DelayQueueBuffer(0), as the node agent uses it) left pushed tasks on the heap: " + impl,
                 {"stream": stream, "ops": case_lines, "observed": impl, "correspondence": rep})
@@ -273,8 +273,7 @@ def class_counters(ctx):
             n, k = int(t[1]), int(t[2])
             c("conc.%s" % ("all-calls-fail" if k >= n else "some-calls-fail" if k > 0 else "ca-healthy"))
             c("conc.kinds.%s" % ("mixed" if ("w" in t[4] and "r" in t[4]) else "default-only" if "w" in t[4] else "ROOTCA-only"))
-        elif t[0] in ("stress", "outdir"):
-            c("conc.%s" % t[0])
+        # (stress / outdir are counted per op by the stream accounting: conc.op.stress, conc.op.outdir)
     for op, out in pair("sds"):
         t = op.split()
         if t[0] == "case":
@@ -292,13 +291,38 @@ def class_counters(ctx):
     for op, out in pair("file"):
         t = op.split()
         if t[0] == "case":
-            c("file.volume.%s" % ("kube-symlink" if len(t) == 4 else "regular-files"))
+            c("file.volume.%s" % ({"kube": "kube-symlink", "link": "re-pointed-symlinks"}.get(t[3], t[3]) if len(t) == 4 else "regular-files"))
         elif t[0] in ("fgen", "fwrite"):
             c("file.%s.%s" % (t[0], t[1]))
+    # what the uncontrolled concurrent ops actually exercised (side files written by the harness next to the exec output)
+    for stream in ("conc", "file", "timer"):
+        sp = os.path.join(ctx.work, "%s.run.impl.stats" % stream)
+        if not os.path.exists(sp):
+            continue
+        for line in ctx.read_lines(sp):
+            t = line.split()
+            if not t:
+                continue
+            c("exercised.%s.runs" % t[0])
+            for kv in t[1:]:
+                if "=" in kv:
+                    k, v = kv.split("=", 1)
+                    if v.lstrip("-").isdigit():
+                        c("exercised.%s.%s" % (t[0], k), int(v))
     for op, out in pair("timer"):
         t = op.split()
         if t[0] == "rt":
             c("timer.%s.ttl%s" % ("stale-scenario" if t[4] == "1" else "fresh-scenario", t[1]))
+        elif t[0] == "rt3":
+            c("timer.three-pending-tasks-last-due-first")
+    for op, out in pair("citadel"):
+        t = op.split()
+        if t[0] == "case":
+            c("citadel.transport.%s" % ("tls-root-file" if len(t) == 8 else "plaintext"))
+        elif t[0] == "cgen":
+            c("citadel.ca-answer.%s" % t[2])
+        elif t[0] == "rootfile" and t[1] == "hide":
+            c("citadel.reconnect-while-root-file-unreadable")
 
 
 def run(ctx):
@@ -326,9 +350,12 @@ def run(ctx):
         "the jitter value drawn by rand is admissible for the configured bound (hypothesis of scheduled_strictly_before_expiry_step; the model's step accepts any value)",
         "the scheduled delay is counted from the instant rotateTime read the clock; the delayed queue adds its own enqueue latency",
         "specific interleavings are not forced on the real code (no gate hooks): concurrency is tied by uncontrolled stress runs asserting the invariants' observables",
+        "the model has one clock input per step; the real code mixes the wall-clock NotAfter of the certificate (second granularity) with the monotonic clock of timers: expiry-related clauses are judged on the real code against the leaf's NotAfter, not proved about that mix",
+        "timer stream shapes: at most three pending tasks with lifetimes of 3-9 s (first delay > 1 s); other queue shapes only through the qs stress (single, burst, pairs, far-far-near, retry)",
+        "the Citadel client runs over plaintext in 2/3 and over TLS with a root file in 1/3 of the citadel cases; client certificates (Key / Cert of TLSOptions) are not exercised",
         "file-mounted certificates, OutputKeyCertToDir, the SDS server, the Citadel client and the delayed queue are observed (streams file / outdir / sds / citadel / timer), not modelled line by line; file paths are modelled as 'returns the file pair'",
         "almost all runs use ECDSA P-256 keys (RSA 2048 and PKCS#8 only in a few cache-stream cases)",
-        "not exercised: sdsservice toEnvoySecret cryptomb / QAT / CRL branches, FileMountedCerts / ServeOnlyFiles, FileRootSystemCACert, file removal",
+        "not exercised: sdsservice toEnvoySecret cryptomb / QAT / CRL branches, FileMountedCerts / ServeOnlyFiles, FileRootSystemCACert; a removed / empty file makes the agent fall back to the CA (seen in fflicker, not judged); mixed mode (root file mounted, key/cert from the CA) only checked once by hand (notes)",
     ]
     ctx.trusted.append("security/pkg/nodeagent/cache/zz_verif_c18.go (verif-tagged accessors: rotateTime, queue injection, cache reads)")
     ctx.trusted.append("the fake CA (real x509 signing of the real CSR), the recording delayed queue and the recording secret handler of harness/c18")
@@ -407,15 +434,19 @@ MANIFEST = {
                    "SecretManagerClient with a signing fake CA, recording queue (notes the cache state at PushDelayed) and handler (notes the "
                    "cache / bundle / root state at every callback) on 1600 random scripts with ratio and jitter over [0,1]^2; 100 concurrent "
                    "runs + 3 uncontrolled stress runs (GenerateSecret || rotation tasks, some run inside PushDelayed || bundle updates, "
-                   "failing CA, changing roots) asserting the observables of the invariants; OutputKeyCertToDir under concurrency; 150 scripts "
-                   "through the real CitadelClient and an in-process gRPC CA; 40 scripts on file-mounted certificates with real fsnotify "
-                   "events; 32 scripts through the real sds.Server with gRPC subscribers; the real delayed queue: 8 timed scenarios, a stress "
-                   "in two shapes, and 1500 zero-delay rotations on the queue NewSecretManagerClient creates itself); the verif-tagged accessor "
+                   "failing CA, changing roots, one or two bundle updaters) asserting the observables of the invariants - what they exercised is "
+                   "counted under class.exercised.*; OutputKeyCertToDir under concurrency; 150 scripts through the real CitadelClient and an "
+                   "in-process gRPC CA (one third over TLS with a root file that is made unreadable around failing calls; retried gRPC codes); "
+                   "40 scripts on file-mounted certificates with real fsnotify events (plain files, kubelet volumes, a re-pointed symlink, "
+                   "replacement under load, a file that vanishes while its watch is added); 32 scripts through the real sds.Server with gRPC "
+                   "subscribers; the real delayed queue: 8 timed scenarios incl. three pending tasks with the last due first, a stress in five "
+                   "shapes (60000 single pushes, delayed-then-burst, 60000 back-to-back / concurrent pushes, two far tasks then a near one, a "
+                   "failing task that is retried), and 1500 zero-delay rotations on the queue NewSecretManagerClient creates itself); the "
+                   "verif-tagged accessor "
                    "file security/pkg/nodeagent/cache/zz_verif_c18.go. Assumed: mutexes give atomic sections, the CA signs the CSR it is given, "
                    "CreatedTime values of different CA responses differ (explicit hypothesis of the stale-callback theorem), float64 rounding "
                    "stays within the tolerance. Observed but not modelled line by line: sdsservice.go, citadel/client.go, pkg/queue/delay.go, "
-                   "nodeagent/util OutputKeyCertToDir, the file-mounted paths (modelled as 'returns the file pair'; symlink watchers not "
-                   "exercised). Specific interleavings are not forced on the real code (no gate hooks). The scheduled delay is proved <= time "
+                   "nodeagent/util OutputKeyCertToDir, the file-mounted paths (modelled as 'returns the file pair'). Specific interleavings are not forced on the real code (no gate hooks). The scheduled delay is proved <= time "
                    "to expiry from the instant rotateTime read the clock; the queue's enqueue latency comes on top (lateness is observed "
                    "against the leaf's NotAfter)."),
     "technique": "Lean 4 theorems over an exact model of rotateTime and an atomic-step interleaving model of SecretManagerClient + differential correspondence with the real Go code",
